@@ -70,6 +70,7 @@ func logoutAdversarial(r *core.Run, prop string) {
 	issuerCfg := t.Int(2, "c10.issuercfg") == 0
 
 	s := NewStd(r)
+	s.DrawLive()
 	s.DrawClockKnobs()
 	s.Cfg.SkipSig = skip
 	if skip {
